@@ -467,7 +467,7 @@ Definition crc_bit (c : N) : N :=
 Definition crc_byte (c b : N) : N :=
   crc_bit (crc_bit (crc_bit (crc_bit (crc_bit (crc_bit (crc_bit (crc_bit (N.lxor c b)))))))).
 Definition crc_update (c : N) (l : list N) : N := fold_left crc_byte l c.
-Definition crc32 (l : list N) : N := N.lxor (crc_update 0xFFFFFFFF l) 0xFFFFFFFF.
+Definition crc32 (l : list N) : N := N.land (N.lxor (crc_update 0xFFFFFFFF l) 0xFFFFFFFF) 0xFFFFFFFF.  (* uint32 *)
 
 (* ------------------------------------------------------------------ SHA-1 (FIPS 180-4) on byte lists *)
 Definition w32 (x : N) : N := N.land x 0xFFFFFFFF.
@@ -548,9 +548,27 @@ Inductive cin :=
 | CGenerate (tbl : list (N * N)) (name : list N) (data : list N).
     (* blob in a CAStore, Generator.Generate, GetCacheFileMetadata(TorrentMeta) *)
 
-(* what the implementation answered; None = error *)
+(* an answer relative to a reference answer (keeps cases files small): error, all projected
+   observables identical to the reference, or different (then given in full) *)
+Inductive sobs := SErr | SSame | SDiff (m : mobs).
+Definition rel_obs (o ref : option mobs) : sobs :=
+  match o, ref with
+  | None, _ => SErr
+  | Some m, Some b => if mobs_eqb m b then SSame else SDiff m
+  | Some m, None => SDiff m
+  end.
+Definition sobs_eqb (a b : sobs) : bool :=
+  match a, b with
+  | SErr, SErr => true
+  | SSame, SSame => true
+  | SDiff m, SDiff m' => mobs_eqb m m'
+  | _, _ => false
+  end.
+
+(* what the implementation answered; None = error.  In OGen the stream variant and the
+   serialise/parse round trip are given relative to the byte-slice variant. *)
 Inductive cobs :=
-| OGen (o_stream o_bytes o_rt : option mobs)
+| OGen (o_stream : sobs) (o_bytes : option mobs) (o_rt : sobs)
 | OParse (o : option mobs)
 | OTable (o : option (list Z))
 | OGenerate (o : option mobs)
@@ -564,7 +582,7 @@ Definition olist_eqb (a b : option (list Z)) : bool :=
   end.
 Definition cobs_eqb (a b : cobs) : bool :=
   match a, b with
-  | OGen a1 a2 a3, OGen b1 b2 b3 => omobs_eqb a1 b1 && omobs_eqb a2 b2 && omobs_eqb a3 b3
+  | OGen a1 a2 a3, OGen b1 b2 b3 => sobs_eqb a1 b1 && omobs_eqb a2 b2 && sobs_eqb a3 b3
   | OParse p, OParse q => omobs_eqb p q
   | OTable p, OTable q => olist_eqb p q
   | OGenerate p, OGenerate q => omobs_eqb p q
@@ -583,9 +601,10 @@ Definition case_model (c : cin) : cobs :=
   match c with
   | CGen name pl chunks fail =>
       let b := new_metainfo_bytes sum sha1 name (concat chunks) pl in
-      OGen (observe_res (new_metainfo_stream sum sha1 name (mkrd chunks fail) pl))
+      OGen (rel_obs (observe_res (new_metainfo_stream sum sha1 name (mkrd chunks fail) pl)) (observe_res b))
            (observe_res b)
-           (match b with Ok mi => observe_res (deserialize sha1 (serialize mi)) | _ => None end)
+           (rel_obs (match b with Ok mi => observe_res (deserialize sha1 (serialize mi)) | _ => None end)
+                    (observe_res b))
   | CParse raw => OParse (observe_res (deserialize sha1 raw))
   | CTable tbl sizes =>
       OTable (match plconfig_new tbl with
@@ -605,9 +624,6 @@ Definition spec_layout_ok (name : list N) (pl : Z) (data : list N) (m : mobs) : 
   && bytes_eqb (o_name m) name
   && Z_list_eqb (o_gpl m) (0%Z :: map (fun p => lenZ p) ps ++ [0%Z; 0%Z]).
 
-(* serialise/parse preserves info hash, digest and piece layout (and hence the serialised form) *)
-Definition same_meta (a b : mobs) : bool := mobs_eqb a b.
-
 (* the property evaluated on the implementation's observables of one case *)
 Definition C02_check (c : cin) (o : cobs) : bool :=
   match c, o with
@@ -615,16 +631,17 @@ Definition C02_check (c : cin) (o : cobs) : bool :=
       let data := concat chunks in
       if negb (in_i64 pl) || negb (lenZ data <? 9223372036854775808)%Z then true
       else if (pl <=? 0)%Z then
-        match os, ob with None, None => true | _, _ => false end      (* non-positive piece length rejected *)
+        match os, ob with SErr, None => true | _, _ => false end      (* non-positive piece length rejected *)
       else
         match ob with
         | None => false
         | Some b =>
             spec_layout_ok name pl data b
             && (if fail then true
-                else match os with Some st => mobs_eqb st b | None => false end)   (* stream = buffer *)
+                else match os with SSame => true | _ => false end)   (* stream = buffer *)
             && (if valid_name name
-                then match ort with Some r => same_meta r b | None => false end    (* round trip *)
+                then match ort with SSame => true | _ => false end  (* round trip preserves info
+                       hash, digest, layout (and the serialised form) *)
                 else true)
         end
   | CParse _, OParse _ => true          (* the statement does not speak about foreign input *)
